@@ -32,6 +32,7 @@ EXPLANATION = (
     "Does not decide NumPy results, broadcasting or the exponent arithmetic of prod.")
 EXPLANATION += " Also decided (rules added after the second round of seeded changes): package-wide who-may-call of the in-place primitives (_convert_magnitude, ito*: only in-place forms, on their own target, or the ireduce_dimensions wrapper on the fresh result); a local alias of an operand's magnitude is not used after the operand name is rebound to a converted quantity."
 EXPLANATION += ' Also decided (round 5): who may strip a parameter of its units without converting it - a reasoned table of the (implementation, parameter) pairs of numpy_func.py whose magnitude may be read raw; any other raw read (e.g. `period` of np.interp) is a violation.'
+EXPLANATION += ' Also decided (round 8): the *_if_needed helpers of NumpyQuantity leave the quantity unconverted only where it is unitless and radian is asked for; np.isclose/allclose take a bare atol in the units of `a`.'
 
 
 
